@@ -15,14 +15,14 @@ def run(chk, tier):
     diffrules.apply_arms_symmetric(chk, P)
     chk.rule("R-ATOMIC", "hwloc_apply_diff_one cannot fail after it has written the object (all paths, constant propagation)")
     nf = atomic.check(chk, P, E, "hwloc_apply_diff_one", "diff.c", atomic.topo_writes(E, arg_indices=(0, 1)))
-    chk.floor("R-ATOMIC", "failure returns of hwloc_apply_diff_one", nf, 6)
+    chk.floor("R-ATOMIC", "failure returns of hwloc_apply_diff_one", nf, 4)
     chk.rule("R-FLAGS", "flag words of build/apply (see C10)")
     ns, nw = flags.run(chk, P, "C16", effects=E)
     chk.floor("R-FLAGS", "entry points", ns, 2)
     chk.rule("R-NULLATTR", "optional attributes of a diff XML entry (see C06)")
     N = nullness.Nullness(P)
     v, us = N.run(chk, "topology-xml.c", funcs=["hwloc__xml_import_diff_one", "hwloc__xml_import_diff"])
-    chk.floor("R-NULLATTR", "optional pointers in hwloc__xml_import_diff_one", v, 7)
+    chk.floor("R-NULLATTR", "optional pointers in hwloc__xml_import_diff_one", v, 5)
     chk.decided += ["a diff that build returns can be applied and exported: no NULL value strings are produced (all producer sites, all paths)",
                     "the N-th entry failing leaves the topology as before: apply_diff_one never fails after writing; roll-back re-applies the prefix with REVERSE flipped; returns -N",
                     "REVERSE symmetry of the three arms", "flag validation and EPERM/EINVAL prefixes", "diff XML import never dereferences a missing attribute"]
